@@ -247,8 +247,7 @@ func (s *C11Spec) Expected(t *C11Test) bool {
 	case "binok":
 		return has(dir[t.Out], t.Arg)
 	case "exists":
-		if n, ok := dir[t.Arg]; ok {
-			_ = n
+		if _, ok := dir[t.Arg]; ok {
 			return true
 		}
 		if i := strings.LastIndexByte(t.Arg, '/'); i > 0 {
